@@ -479,7 +479,7 @@ def logic_block_part(C):
                                                 "%s[%d]" % (name, i)))))
         return I.new_dict(ents, name)
     def active2(I, name):
-        n = I.ctx.fork(3)
+        n = I.ctx.fork(common.bound(2, 3) + 1)
         return I.new_list([VObj(Obj("Mode", ObjS("Mode", is_game_mode=Bool, auto_stop_on_ball_end=Bool,
                                                  restart_on_next_ball=Bool, stopping=Bool, name=Str,
                                                  player=Opt(ObjS("Player"))), "%s[%d]" % (name, i)))
@@ -545,7 +545,7 @@ def logic_block_part(C):
                    "(1 if n_mode_stops() == 0 else 0))")],
          modifies=["self.queue", "self.mode_stop_count", "queue.waiting",
                    "self.machine.game.player.restart_modes_on_next_ball.**"], raises={},
-         bounded="BOUNDED: at most 2 active modes")
+         bounded="BOUNDED: at most %d active modes" % common.bound(2, 3))
     C.fn("ModeController._mode_stopped_callback",
          requires=[("a stop is awaited", "self.mode_stop_count >= 1 and self.queue is not None")],
          ensures=[("the queue is released exactly when the last awaited mode has stopped",
